@@ -49,9 +49,16 @@ def run(chk):
         names = list(fam.names)
         if names != list(data.keys()) or len(set(names)) != len(names):
             chk.violation("names-order", dict(family=fname, what="names differ from the order of the data file or contain duplicates"))
+        # an abandoned iteration must not disturb the next one, and a family can be iterated any number of times
+        first = next(iter(fam), None)
+        if first is None or first[0] != names[0]:
+            chk.violation("iteration-order", dict(family=fname, what="the first item of a fresh iterator is not the first name", got=None if first is None else first[0]))
         it = list(iter(fam))
         if [k for k, _ in it] != names:
-            chk.violation("iteration-order", dict(family=fname, iterated=[k for k, _ in it][:5], names=names[:5]))
+            chk.violation("iteration-order", dict(family=fname, iterated=[k for k, _ in it][:5], names=names[:5], count=len(it)))
+        again = [k for k, _ in fam]
+        if again != names:
+            chk.violation("iteration-order", dict(family=fname, what="a second pass over the family does not yield every name once, in order", count=len(again)))
         for pos, (key, sh_it) in enumerate(it):
             st, sh = C.excname(fam.get_shape, key)
             chk.case([fname, key], True)
